@@ -87,7 +87,7 @@ func VerifC15Upload() {
 	maxSize := 3
 	if vrt_Tier() > 0 {
 		nFiles = 1 + vrt_Choose("files", 2)
-		maxSize = 5
+		maxSize = 3
 	}
 	phone := vrt_Bytes("phone", 6)
 	vNoEsc(phone)
@@ -131,7 +131,7 @@ func VerifC15Upload() {
 		for i, u := range us {
 			if i == k && len(u.data) > 1 {
 				at := 1
-				if vrt_Tier() > 0 {
+				if vrt_Tier() > 1 {
 					at = 1 + vrt_Choose("cutAtT", len(u.data)-1)
 				} else {
 					// quick: after the first byte, inside the marker / header, in the middle, before the last byte
